@@ -449,7 +449,13 @@ pub fn recommended_registry_package_url_to_nv(
   let mut parts = path.split('/');
   let scope = parts.next()?;
   let name = parts.next()?;
-  let version = parts.next()?;
+  let version_text = parts.next()?;
+  let version = deno_semver::Version::parse_standard(version_text).ok()?;
+  // the parsing is loose (ex. it accepts a leading `v`), but only the
+  // normalized text of a version is the path segment of that package version
+  if version.to_string() != version_text {
+    return None;
+  }
   Some(PackageNv {
     name: {
       capacity_builder::StringBuilder::<StackString>::build(|builder| {
@@ -459,7 +465,7 @@ pub fn recommended_registry_package_url_to_nv(
       })
       .unwrap()
     },
-    version: deno_semver::Version::parse_standard(version).ok()?,
+    version,
   })
 }
 
